@@ -74,6 +74,32 @@ func genTicks(t *rapid.T, epochTicks int64, epochUnix int64, max int64) int64 {
 	}
 }
 
+// genSignedTicks extends genTicks to the whole int64 range: FILETIME.ToInt64 defines the tick value
+// as a signed 64-bit number, so bit patterns with the top bit set are times before 1601. Anchors:
+// the type minimum, the point where (ticks - epoch) leaves int64, -1 and whole-second boundaries.
+func genSignedTicks(t *rapid.T, epochTicks int64, epochUnix int64) int64 {
+	switch rapid.IntRange(0, 5).Draw(t, "signClass") {
+	case 0:
+		return rapid.Int64Range(math.MinInt64, -1).Draw(t, "negTicks")
+	case 1:
+		as := []int64{math.MinInt64, math.MinInt64 + epochTicks, -1, -10_000_000, -epochTicks, math.MinInt64 / 100}
+		a := as[rapid.IntRange(0, len(as)-1).Draw(t, "negAnchor")]
+		var d int64
+		if rapid.Bool().Draw(t, "tight") {
+			d = rapid.Int64Range(-3, 3).Draw(t, "d")
+		} else {
+			d = rapid.Int64Range(-20_000_000, 20_000_000).Draw(t, "d")
+		}
+		v := a + d
+		if d < 0 && v > a { // wrapped below the minimum
+			v = a
+		}
+		return v
+	default:
+		return genTicks(t, epochTicks, epochUnix, math.MaxInt64)
+	}
+}
+
 func interestingTicks(v int64, epochTicks int64, epochUnix int64) bool {
 	tm := wintime.TicksToTime(big.NewInt(v), epochUnix)
 	if tm.Year() < 1970 || tm.Year() > 2100 {
@@ -185,7 +211,7 @@ func checkFiletimeGetTime(c tickCase) []vf.Finding {
 func TestFiletimeGetTime(t *testing.T) {
 	s := vf.Begin(t, P, "filetime-get-time")
 	vf.Rapid(s, vf.N(30000, 400000), func(t *rapid.T) tickCase {
-		return tickCase{genTicks(t, epoch1601Ticks, wintime.Epoch1601Unix, math.MaxInt64)}
+		return tickCase{genSignedTicks(t, epoch1601Ticks, wintime.Epoch1601Unix)}
 	}, checkFiletimeGetTime, func(c tickCase) bool { return interestingTicks(c.Ticks, epoch1601Ticks, wintime.Epoch1601Unix) })
 }
 
@@ -459,8 +485,10 @@ func TestSentinels(t *testing.T) {
 		for _, v := range []int64{math.MaxInt64, math.MinInt64, 0, -1, 1, epoch1601Ticks, epoch1601Ticks - 1, epoch1601Ticks + 1} {
 			yield(sc{"ldap-ts", v})
 			yield(sc{"ldap-dur", v})
-			if v >= 0 {
-				yield(sc{"filetime", v})
+			yield(sc{"filetime", v})
+			if v == math.MinInt64 {
+				yield(sc{"filetime", v + epoch1601Ticks - 1}) // last value for which ticks-epoch leaves int64
+				yield(sc{"filetime", v + epoch1601Ticks})
 			}
 			if v > 0 {
 				yield(sc{"datetime", v})
